@@ -363,7 +363,7 @@ def run_body(chk, lres, b, tier, replay):
         lines = [replay["case"]]
         cases = None
     else:
-        n = 260 if tier == "quick" else 6000
+        n = 260 if tier == "quick" else 8000
         cases = [gen_case(r, "c%d" % i) for i in range(n)]
         # "destroyed after any prefix": a share of the histories is also run cut after every call
         extra = []
@@ -381,7 +381,7 @@ def run_body(chk, lres, b, tier, replay):
                                      "max_namespaces": max(c["rs"].rules[-1]["ns"] + 1 for c in cases)}
         sl.describe(b["h_hist"], [c["rs"] for c in cases], core)
         lines = corpus_lines("C10") + lines_of(cases, variant)
-    impl, rc, err = core.run_parallel([b["h_hist"]], lines)
+    impl, rc, err = core.run_parallel([b["h_hist"]], lines, timeout=3000)
     if rc != 0 or len(impl) != len(lines):
         chk.violation("harness_crash.json", {"kind": "harness-crash-or-sanitizer", "rc": rc, "stderr": err, "engine": "hist",
                                               "harness": "h_hist", "cases": lines[:20]})
